@@ -128,7 +128,7 @@ PROPS = {
         "legs": [{"ws": "mc", "bin": "h_conn", "args": ["--only", "lifecycle/"]}, {"ws": "seq", "bin": "h_connseq"}],
         "rule": "one case = per-thread programs over {create_sender, create_receiver, use, drop, leak+force-remove} with matching or mismatching parameters (lifecycle cases), "
                 "or a sender thread (try_send, reclaim) against a receiver thread (receive, release) (data cases); every schedule within the bounds is executed on the real code",
-        "assumptions": IXMC_ASSUME + ["pthread mutexes are modelled by the scheduler (owner tracking, blocked threads are disabled); pthread_mutex_timedlock is modelled as a blocking lock", "thread leg: the dynamic storage is the process-local one; the posix shared memory storage shares the connection code (common.rs) but not the storage code", "sequential leg (h_connseq): tree depth 5 (process-local) / 3 (posix shm, file) quick, 6 / 4 thorough, every prefix finished (detach all, name reusable with other parameters), then breadth-first over all distinct model states (507 for process-local, 21 for the projections of the others) to depth 10-12"],
+        "assumptions": IXMC_ASSUME + ["pthread mutexes are modelled by the scheduler (owner tracking, blocked threads are disabled); pthread_mutex_timedlock is modelled as a blocking lock", "thread leg: the dynamic storage is the process-local one; the posix shared memory storage shares the connection code (common.rs) but not the storage code", "sequential leg (h_connseq): tree depth 5 (process-local) / 3 (posix shm, file) quick, 6 / 4 thorough, every prefix finished (detach all, name reusable with other parameters), then breadth-first over all distinct model states (549 in total: process-local with parameters and queue position, the others by their projections) to depth 9-12"],
         "design_ref": "DESIGN.md §3.1, §4 C13",
         "level_text": "All schedules of 2-3 threads attaching, using, detaching and force-removing the sender and receiver role of one connection name are executed on the "
                       "real code up to the stated bounds: never two holders of one role, a live port always sits on an existing resource, mismatches are refused, after the "
